@@ -610,6 +610,7 @@ func main() {
 		chk.Finish()
 	}
 	runEveryByte()
+	runEveryRune()
 	runShortStrings()
 	runCode128Product()
 	runMarginProduct()
